@@ -536,6 +536,7 @@ func (s *Sim) Step(n *Node, what string, fn func()) (ran bool) {
 	s.Steps++
 	if n.armPending && n.FS != nil {
 		n.armPending = false
+		n.FS.SetCountable(simfs.WALSync)
 		n.FS.CrashIn(n.crashK, n.crashTear)
 		n.CrashArmed = true
 	}
@@ -619,6 +620,10 @@ func (s *Sim) ArmCrash(n *Node, k, tear int, power bool) {
 		n.armPending = true
 		return
 	}
+	// the crash lands on the k-th commit (write-ahead log sync) of the node's coming steps: the process dies when the
+	// record is written and not yet synced - a kill keeps it (the step's effect up to and including this commit is
+	// found at restart), a power loss drops it
+	n.FS.SetCountable(simfs.WALSync)
 	n.FS.CrashIn(k, tear)
 	n.CrashArmed = true
 }
